@@ -28,6 +28,7 @@ def run(tier: str) -> int:
             {"Family": "names", "MaxLen": 3, "Starts": "zero", "Sample": 200, "workers": 2},
             {"Family": "trivfx", "MaxLen": 4, "Starts": "zero", "Sample": 350, "workers": 3, "modes": ("interp", "gen", "opt", "optgen")},
             {"Family": "bounds", "MaxLen": 4, "Starts": "zero", "Sample": 450, "workers": 3, "modes": ("interp", "gen", "opt", "optgen")},
+            {"Family": "trivpeek", "MaxLen": 5, "Starts": "zero", "Sample": 0, "workers": 2, "modes": ("interp", "gen", "opt", "optgen")},  # trivia that reads the stack
             {"Family": "optinl", "MaxLen": 3, "Starts": "zero", "Sample": 300, "workers": 3, "style": "min", "modes": ("interp", "gen", "opt", "optgen")},  # trivia rules referenced by name
         ]
     else:
@@ -38,6 +39,7 @@ def run(tier: str) -> int:
             {"Family": "names", "MaxLen": 4, "Starts": "zero", "Sample": 0, "workers": 8},
             {"Family": "trivfx", "MaxLen": 4, "Starts": "zero", "Sample": 0, "workers": 8, "modes": ("interp", "gen", "opt", "optgen")},
             {"Family": "bounds", "MaxLen": 4, "Starts": "zero", "Sample": 0, "workers": 8, "modes": ("interp", "gen", "opt", "optgen")},
+            {"Family": "trivpeek", "MaxLen": 6, "Starts": "zero", "Sample": 0, "workers": 4, "modes": ("interp", "gen", "opt", "optgen")},
             {"Family": "optinl", "MaxLen": 4, "Starts": "zero", "Sample": 0, "workers": 8, "style": "min", "modes": ("interp", "gen", "opt", "optgen")},
         ]
     # trivia around the (!x ~ ANY)* idiom in rules of every modifier, also through the optimizer (which rewrites the idiom)
